@@ -577,6 +577,13 @@ where
         };
 
         while let Some(id) = self.free_list.pop() {
+            #[cfg(salsa_rs_salsa_verif)]
+            crate::verif_conc::emit(crate::verif_conc::Ev::Reuse {
+                ingredient: self.ingredient_index.as_u32(),
+                index: id.index(),
+                generation: id.generation(),
+                new_generation: id.next_generation().map(|id| id.generation()),
+            });
             // Increment the ID generation before reusing it, as if we have allocated a new
             // slot in the table.
             //
@@ -817,6 +824,12 @@ where
 
         // now that all cleanup has occurred, make available for re-use
         self.free_list.push(id);
+        #[cfg(salsa_rs_salsa_verif)]
+        crate::verif_conc::emit(crate::verif_conc::Ev::Free {
+            ingredient: self.ingredient_index.as_u32(),
+            index: id.index(),
+            generation: id.generation(),
+        });
     }
 
     /// Clears the given memo table.
